@@ -10,6 +10,7 @@ import SJ.Drv.C05
 import SJ.Drv.C03
 import SJ.Drv.C17
 import SJ.Drv.C08
+import SJ.Drv.C15
 /-!
 `sjdriver` — reads case lines `op args… => impl-observation` on stdin, runs the Lean model and the
 executable specification on each, prints
@@ -33,6 +34,7 @@ def allHandlers : List (String × Handler) :=
     C03.handlers,
     C17.handlers,
     C08.handlers,
+    C15.handlers,
   ]
 
 def findHandler (op : String) : Option Handler := (allHandlers.find? (·.1 == op)).map (·.2)
